@@ -14,8 +14,8 @@ package goast
 //@ func FindImportSpec(f, path) (r)
 //@   requires f != nil
 //@   requires typing: forall i int {f.Imports[i]} :: 0 <= i && i < len(f.Imports) ==> f.Imports[i] != nil && f.Imports[i].Path != nil && unquoteOK(f.Imports[i].Path.Value)
-//@   ensures [C10] none: r == nil ==> forall i int {f.Imports[i]} :: 0 <= i && i < len(f.Imports) ==> unquoted(f.Imports[i].Path.Value) != path
-//@   ensures [C10] found: r != nil ==> r.Path != nil && unquoted(r.Path.Value) == path && exists i int :: 0 <= i && i < len(f.Imports) && f.Imports[i] == r
+//@   ensures [C01,C10] none: r == nil ==> forall i int {f.Imports[i]} :: 0 <= i && i < len(f.Imports) ==> unquoted(f.Imports[i].Path.Value) != path
+//@   ensures [C01,C10] found: r != nil ==> r.Path != nil && unquoted(r.Path.Value) == path && exists i int :: 0 <= i && i < len(f.Imports) && f.Imports[i] == r
 //@   assigns nothing
 //@   loop 0
 //@     invariant forall i int {f.Imports[i]} :: 0 <= i && i < #k ==> unquoted(f.Imports[i].Path.Value) != path
